@@ -71,6 +71,17 @@ impl Fr {{
         u.add(u.real_fn(G['mod'], f'impl {aff}', 'is_in_correct_subgroup_assuming_on_curve',
                         "    ensures ret == (smul(RORDER(), self.pt()) == gzero())", vis='pub'))
         u.add(u.real_fn('subgroup_check', f'impl SubgroupCheck for {aff}', 'in_subgroup', "    ensures ret == self.in_subgroup_spec()", vis='pub'))
+        # multi-scalar multiplication entry point: composition (C10); the bucket method is a contract-less stub here
+        u.add(f"""    pub uninterp spec fn pip_spec(points: Seq<{aff}>, scalars: Seq<&[u64; 4]>, window: int) -> GE;
+    pub uninterp spec fn window_spec(n: int) -> int;
+    #[verifier::external_body]
+    pub fn sum_of_products_pippinger(points: &[{aff}], scalars: &[&[u64; 4]], window: usize) -> (ret: {g})
+        ensures ret.pt() == Self::pip_spec(points@, scalars@, window as int) {{ unimplemented!() }}
+    #[verifier::external_body]
+    pub fn find_pippinger_window(num_components: usize) -> (ret: usize) ensures ret == Self::window_spec(num_components as int) {{ unimplemented!() }}""")
+        u.add(u.real_fn(G['mod'], f'impl CurveAffine for {aff}', 'sum_of_products',
+                        "    ensures ret.pt() == Self::pip_spec(points@, scalars@, Self::window_spec(if points@.len() < scalars@.len() { points@.len() as int } else { scalars@.len() as int }))",
+                        vis='pub', subst=(('&[Self]', f'&[{aff}]'),)))
         u.add("}")
         # projective multiplication
         ls2 = dict(loop_spec)
